@@ -427,6 +427,21 @@ def orElseCat (el : Elem α) (mv : Bool) (v : V α) : Except Err (Option α × V
     (deref v).map fun x => if mv then (some (el.mc x).1, { v with val := (el.mc x).2 }) else (some (el.cc x), v)
   else .ok (none, v)
 
+/-! #### optional<T&>: a nullable pointer; conversion from another optional -/
+
+/-- `addressof(*rhs)`: the address of the object the source optional holds (`optional<U&>`: its `_ptr`; `optional<U>`:
+    its engaged storage), `none` = disengaged; `operator*` has `TETL_PRECONDITION(has_value())` -/
+def orefAddr (src : Option Nat) : Except Err Nat :=
+  match src with
+  | some a => .ok a
+  | none => .error (.pre "optional::operator*: has_value()")
+
+/-- `optional<T&>(optional<U> const& rhs) : _ptr(rhs.has_value() ? addressof(*rhs) : nullptr)` and
+    `operator=(optional<U> const& rhs)`: `_ptr = rhs.has_value() ? addressof(*rhs) : nullptr` (the previous binding of
+    the target is overwritten): the new `_ptr` -/
+def orefConv (src : Option Nat) : Except Err (Option Nat) :=
+  if src.isSome then (orefAddr src).map some else .ok none
+
 /-! ### expected = variant<T, E>, index 0 = value -/
 
 /-- `has_value()`: `_u.index() == 0` -/
@@ -481,5 +496,90 @@ def selectScan : List (Option Cand) → Nat → Option (Nat × Nat) → Bool →
     | _ => selectScan cs (i + 1) best amb
 
 def select (cands : List (Option Cand)) : Option Nat := selectScan cands 0 none false
+
+/-! ### converting constructor / assignment: the candidate table over kinds of types
+
+`variant_alternative_selector.hpp`: alternative `Ti` takes part for an argument `T` iff the concept
+`variant_alternative_candidate<T, Ti>` holds, i.e. iff `variant_alternative_array<Ti>{{declval<T>()}}`
+(`Ti x[] = {forward<T>(t)}`) is well-formed: an implicit conversion exists AND it is not a narrowing conversion -
+whatever the kinds of `T` and `Ti` are (the test is not restricted to arithmetic types: pointer -> bool is
+narrowing too).  Overload resolution over `operator()(Ti, T&&)` of the remaining alternatives then ranks the
+implicit conversion sequences `T -> Ti` of the by-value parameter. -/
+
+/-- kinds of argument / alternative types (LP64, plain `char` signed: x86-64 g++) -/
+inductive K where
+  | bool | char | short | int | long | uint | float | double
+  | cptr              -- `char const*`
+  | iptr              -- `int*`
+  | vptr              -- `void const*`
+  | nullp             -- `std::nullptr_t`
+  | lit               -- a string literal: lvalue `char const[N]` (argument only)
+  | uenum             -- unscoped enumeration with underlying type `int`
+  | senum             -- scoped enumeration
+  | fromInt (id : Nat)  -- class #id with an implicit constructor from `int` (Trk, Mo, the Sm kinds, Num)
+  | fromPtr (id : Nat)  -- class #id with an implicit constructor from `char const*` (Text)
+  | toInt             -- class with `operator int() const` (argument only)
+  deriving Repr, DecidableEq, Inhabited
+
+def K.isIntegral : K → Bool
+  | .bool | .char | .short | .int | .long | .uint => true
+  | _ => false
+def K.isFloating : K → Bool
+  | .float | .double => true
+  | _ => false
+def K.isArith (k : K) : Bool := k.isIntegral || k.isFloating
+def K.isPtr : K → Bool
+  | .cptr | .iptr | .vptr | .lit => true
+  | _ => false
+
+/-- standard conversion sequence between two arithmetic types: 0 identity, 1 promotion ([conv.prom], [conv.fpprom]),
+    2 conversion -/
+def arithRank (a t : K) : Nat :=
+  if a == t then 0 else
+  match a, t with
+  | .bool, .int | .char, .int | .short, .int | .float, .double => 1
+  | _, _ => 2
+
+/-- the implicit conversion sequence `a -> t` in a copy-initialization context ([over.best.ics]), as its rank:
+    0 exact match (identity, array-to-pointer), 1 promotion, 2 conversion, 3.. user-defined (constructor of `t`;
+    conversion function of `a` followed by a standard conversion, which orders two sequences through the same
+    function).  `none`: no implicit conversion (`nullptr_t -> bool` is direct-initialization only).  This is the
+    compiler's table ([over.ics.rank] restricted to the kinds above): data of the model, validated by the
+    correspondence runs on every (argument kind, alternative list) of the harness matrix. -/
+def ics (a t : K) : Option Nat :=
+  if a == t then some 0 else
+  match a, t with
+  | .lit, .cptr => some 0
+  | .lit, .vptr | .cptr, .vptr | .iptr, .vptr => some 2
+  | .nullp, .cptr | .nullp, .iptr | .nullp, .vptr => some 2
+  | .cptr, .bool | .iptr, .bool | .vptr, .bool | .lit, .bool => some 2
+  | .cptr, .fromPtr _ | .lit, .fromPtr _ | .nullp, .fromPtr _ => some 3
+  | .uenum, .fromInt _ => some 3
+  | .uenum, t => if t.isArith then some (if t == .int then 1 else 2) else none
+  | .toInt, t => if t.isArith then some (3 + arithRank .int t) else none
+  | a, .fromInt _ => if a.isArith then some 3 else none
+  | a, t => if a.isArith && t.isArith then some (arithRank a t) else none
+
+/-- row `a` of the narrowing table: the alternatives for which `Ti x[] = {forward<T>(t)}` is ill-formed although
+    the conversion exists (what the requires-expression of `variant_alternative_candidate` evaluates to) -/
+def narrowRow : K → List K
+  | .bool => [.float, .double]
+  | .char => [.bool, .uint, .float, .double]
+  | .short => [.bool, .char, .uint, .float, .double]
+  | .int | .uenum | .toInt => [.bool, .char, .short, .uint, .float, .double]
+  | .long => [.bool, .char, .short, .int, .uint, .float, .double]
+  | .uint => [.bool, .char, .short, .int, .float, .double]
+  | .float => [.bool, .char, .short, .int, .long, .uint]
+  | .double => [.bool, .char, .short, .int, .long, .uint, .float]
+  | .cptr | .iptr | .vptr | .lit => [.bool]
+  | _ => []
+
+def narrow (a t : K) : Bool := (narrowRow a).contains t
+
+/-- `variant_alternative_selector_single<I, Ti>::operator()(Ti, T&&)` as a candidate of the overload set -/
+def candK (a t : K) : Option Cand := (ics a t).map fun r => ⟨r, narrow a t⟩
+
+/-- `variant_alternative_selector_t<T, Ts...>`: the index of the selected alternative -/
+def selectK (a : K) (alts : List K) : Option Nat := select (alts.map (candK a))
 
 end Tetl.C07
